@@ -163,59 +163,81 @@ FORMAT_UNITS = {
 }
 
 
-def r4(ctx):
+def _format_filesize_run(ctx, modifier, unit_text="1.5 kB"):
+    """(options handed to humansize, returned text) of format_filesize for one modifier without precision part, read by the
+    finite interpreter; the precision regex is answered with `no match`"""
+    import interp
     hir = ctx.anchor_hir(FORMAT_FILESIZE)
-    m = tables.string_match(hir, 8)
-    if m is None:
-        ctx.violation("anchor/format-table", FORMAT_FILESIZE, "unit table of format_filesize not found")
-        raise Abort()
+    ps = ctx.prog.fns[FORMAT_FILESIZE]["params"]
+    seen = {}
 
-    def val(body):
-        fixed, fmt = None, None
-        for x in walk_exprs(body):
-            if x["k"] == "Assign":
-                l = render(x["l"])
-                r = render(peel_result(x["r"]))
-                if "fixed_at" in l:
-                    fixed = None if r.endswith("None") else r.split("::")[-1]
-                elif l == "format":
-                    fmt = r.split("::")[-1]
-        diverges = any(is_call_to(x, "util::error_exit") for x in walk_exprs(body))
-        return (fixed, fmt, diverges)
+    def call(node, recv, args, it, env):
+        callee = str(node.get("callee", ""))
+        m = node.get("m")
+        if m == "captures":
+            return (interp.NONE,)
+        if "FormatSizeOptions" in callee and callee.endswith("::from") and args:
+            return ({"__opts": True, "format": getattr(args[0], "what", str(args[0])).split("::")[-1]},)
+        if isinstance(recv, dict) and recv.get("__opts") and m in ("fixed_at", "decimal_places", "space_after_value", "suffix", "long_units") and args:
+            d = dict(recv)
+            v = args[0]
+            if isinstance(v, interp.V):
+                v = None if v == interp.NONE else (v.args[0].name.split("::")[-1] if v.args and isinstance(v.args[0], interp.V) else str(v))
+            d[m] = v
+            return (d,)
+        if callee.endswith("format_size") and len(args) == 2 and isinstance(args[1], dict):
+            seen.update(args[1])
+            return (unit_text,)
+        if callee.endswith("error_exit"):
+            raise interp._Return("error_exit")
+        return None
+    env = {ps[0]["id"]: 1536, ps[1]["id"]: modifier}
+    res = interp.Interp(call=call, prog=None, max_steps=40000).run(hir, env)
+    return seen, res
 
-    t = table_of(m, val)
+
+def r4(ctx):
+    """format_filesize: unit -> (fixed unit, base), flag letters c / d / s, unknown unit -> status 2; the function is evaluated
+    (finite interpreter) for every documented unit x every subset of the flag letters"""
+    import interp
+    import itertools
+    n = 0
+    first_bad = {}
     for unit, (fx, fm) in FORMAT_UNITS.items():
-        got = t.get(unit)
-        ok = got is not None and got[0] == fx and got[1] == fm
-        ctx.obligation(ok)
-        if not ok:
-            ctx.violation("format-unit/%s" % (unit or "none"), ctx.where(FORMAT_FILESIZE, m),
-                          "format specifier unit `%s` selects %s, documented (%s, %s)" % (unit, got, fx, fm))
-    d = t.get("_")
-    ok = d is not None and d[2]
+        for flags in itertools.chain.from_iterable(itertools.combinations("cds", k) for k in range(4)):
+            mod = "".join(flags) + unit
+            try:
+                opts, res = _format_filesize_run(ctx, mod)
+            except interp.Undecided as e:
+                ctx.violation("format-unit/unreadable", ctx.where(FORMAT_FILESIZE), "cannot evaluate format_filesize for the modifier `%s`: %s" % (mod, e))
+                return
+            n += 1
+            want_fmt = "DECIMAL" if "d" in flags else ("WINDOWS" if "c" in flags else fm)
+            got = (opts.get("fixed_at"), opts.get("format"))
+            ok = got == (fx, want_fmt) and isinstance(res, str) and (("kB" not in res and "KB" not in res) if "s" in flags else ("KB" in res))
+            ctx.obligation(ok)
+            if not ok:
+                if got[0] != fx or (not flags and got[1] != fm):
+                    first_bad.setdefault("format-unit/%s" % (unit or "none"), "format specifier unit `%s` selects %s, documented (%s, %s)" % (unit, got, fx, fm))
+                for fl, var in (("c", "conventional"), ("d", "decimal"), ("s", "short_units")):
+                    if fl in flags and got[0] == fx:
+                        bad_fl = (fl == "d" and got[1] != "DECIMAL") or (fl == "c" and "d" not in flags and got[1] != "WINDOWS") or \
+                            (fl == "s" and isinstance(res, str) and ("kB" in res or "KB" in res))
+                        if bad_fl:
+                            first_bad.setdefault("format-flag/%s" % fl, "flag letter `%s` has no effect (`%s`) for the modifier `%s`: options %s, text %r" % (fl, var, mod, got, res))
+    for k, msg in first_bad.items():
+        ctx.violation(k, ctx.where(FORMAT_FILESIZE), msg)
+    try:
+        _o, res = _format_filesize_run(ctx, "zz")
+    except interp.Undecided:
+        res = None
+    ok = res == "error_exit"
+    n += 1
     ctx.obligation(ok)
     if not ok:
-        ctx.violation("format-unit/unknown", ctx.where(FORMAT_FILESIZE, m),
-                      "an unknown size modifier does not end in error_exit (status 2)")
-    # flag letters c, d, s
-    flags = {}
-    for x in walk_exprs(hir):
-        if x["k"] == "If":
-            c = peel(x["c"], methods=False)
-            if c["k"] == "MCall" and c["m"] == "contains" and peel(c["args"][0])["k"] == "Lit":
-                letter = peel(c["args"][0])["v"]
-                sets = [render(y["l"]) for y in walk_exprs(x["t"]) if y["k"] == "Assign" and render(y["r"]) == "true"]
-                flags[letter] = sets
-    want = {"c": "conventional", "d": "decimal", "s": "short_units"}
-    for letter, var in want.items():
-        ok = var in flags.get(letter, [])
-        ctx.obligation(ok)
-        if not ok:
-            ctx.violation("format-flag/%s" % letter, ctx.where(FORMAT_FILESIZE),
-                          "flag letter `%s` does not set `%s` (found %s)" % (letter, var, flags.get(letter)))
-    ctx.covered("unit arms and flag letters of format_filesize", len(FORMAT_UNITS) + 4,
-                distinct_keys=list(FORMAT_UNITS) + list(want), sample={"units": {k: v[:2] for k, v in t.items()}, "flags": flags})
-
+        ctx.violation("format-unit/unknown", ctx.where(FORMAT_FILESIZE), "an unknown size modifier does not end in error_exit (status 2)")
+    ctx.covered("format_filesize evaluated on %d documented units x 8 flag subsets + an unknown unit" % len(FORMAT_UNITS), n,
+                distinct_keys=list(FORMAT_UNITS) + ["c", "d", "s"], exhaustive=True)
 
 
 HUMANSIZE_UNITS = ["B", "kB", "MB", "GB", "TB", "PB", "EB", "KiB", "MiB", "GiB", "TiB", "PiB", "EiB"]   # humansize 2.1.3 scales.rs, up to u64::MAX
